@@ -21,7 +21,7 @@ def dyadic(rng, shape, scale=8):
 def gen_case(rng, kind, big=False):
     """returns (op dict for the Lean driver, thunk computing the .so result, descriptor)"""
     S, K, E = so_funcs()
-    hi = 60 if big else 24
+    hi = 40 if big else 24
     if kind in ("summate", "summate_fourier", "summate_incompr"):
         dim = int(rng.randint(1, 5)) if kind != "summate_incompr" else int(rng.randint(2, 4))
         N = int(rng.choice([0, 1, 2, 3, rng.randint(4, hi)]))
@@ -47,7 +47,7 @@ def gen_case(rng, kind, big=False):
         return op, (lambda nt=None: K.calc_field_krige(mat, vecs, cond, nt)), dict(M=M, R=R)
     if kind in ("unstructured", "directional"):
         dim = int(rng.randint(1, 4))
-        P = int(rng.choice([1, 2, 3, rng.randint(4, 20 if big else 11)]))
+        P = int(rng.choice([1, 2, 3, rng.randint(4, 14 if big else 11)]))
         F = int(rng.randint(1, 4))
         B = int(rng.randint(2, 7))
         pos = lattice_pos(rng, dim, P) if rng.rand() < 0.7 else rng.randn(dim, P) * 3
@@ -77,7 +77,7 @@ def gen_case(rng, kind, big=False):
                   tol=fbits([tol])[0], bw=fbits([bw])[0], sep=sep, est=est)
         return op, (lambda nt=None: E.directional(f, bins, pos, d, tol, bw, sep, est, nt)), dict(dim=dim, P=P, F=F, B=B, D=D, est=est, sep=sep, bw=bw, nan=bool(np.isnan(f).any()))
     if kind in ("structured", "ma_structured"):
-        n0 = int(rng.choice([1, 2, 3, rng.randint(4, 24 if big else 14)]))
+        n0 = int(rng.choice([1, 2, 3, rng.randint(4, 18 if big else 14)]))
         n1 = int(rng.choice([1, 2, rng.randint(3, 12)]))
         f = dyadic(rng, (n0, n1)) if rng.rand() < 0.6 else rng.randn(n0, n1)
         est = str(rng.choice(["m", "c"]))
